@@ -462,7 +462,41 @@ def earliest (p : Pat) : List Event → List Match
   | [] => []
   | e :: later => (startAt p e later).toList ++ earliest p later
 
+/-- What the engine implements instead of `follow`: `check_global_negations` runs *before* the runs
+advance, so an event that satisfies a `.not` clause kills the candidate even when it would complete it
+(NF = negation first). Differs from `follow` only on such events (known finding C02-neg-at-completion). -/
+def followNF (p : Pat) (key : String) : (todo : List Step) → (stack : List Entry) → (later : List Event) → Option Match
+  | [], stack, _ => some ⟨stack, capsOf stack⟩
+  | _ :: _, _, [] => none
+  | s :: todo, stack, g :: later =>
+    if negHit p g (capsOf stack) then none
+    else if keyOf p g == key && matchesState s g (capsOf stack) then
+      if todo.isEmpty then some ⟨stack ++ [⟨g, s.alias⟩], capsOf (stack ++ [⟨g, s.alias⟩])⟩
+      else followNF p key todo (stack ++ [⟨g, s.alias⟩]) later
+    else followNF p key (s :: todo) stack later
+
+def startAtNF (p : Pat) (e : Event) (later : List Event) : Option Match :=
+  match p.steps with
+  | [] => none
+  | s0 :: rest =>
+    if matchesState s0 e [] then followNF p (keyOf p e) rest [⟨e, s0.alias⟩] later else none
+
+def earliestNF (p : Pat) : List Event → List Match
+  | [] => []
+  | e :: later => (startAtNF p e later).toList ++ earliestNF p later
+
 end Spec
+
+/-- the completing event of `m` itself satisfies a `.not` clause (w.r.t. the captures before it) -/
+def negAtCompletion (p : Pat) (m : Match) : Bool :=
+  match m.stack.getLast? with
+  | some l => negHit p l.ev (capsOf m.stack.dropLast)
+  | none => false
+
+/-- guard of the known finding C02-neg-at-completion: no oracle match is completed by an event that
+satisfies a `.not` clause -/
+def noNegAtCompletion (p : Pat) (evs : List Event) : Bool :=
+  (Spec.earliest p evs).all fun m => !negAtCompletion p m
 
 /-- arrival index of the completing (last) event of a match. -/
 def Match.lastIdx (m : Match) : Nat := match m.stack.getLast? with | some en => en.ev.idx | none => 0
